@@ -3,8 +3,7 @@ CONSTANTS
   Feats = {"type:str", "lit:5", "ast:For", "call:print", "op:+", "foreign", "verifyOther"}
   MaxOcc = 1
   MaxLen = 3
-  Flags = {}
+  Flags = {"steals_foreign_tree"}
 INVARIANT HistoryIndependent
-INVARIANT NothingSurvives
 CONSTRAINT Export
 CHECK_DEADLOCK FALSE
